@@ -183,7 +183,7 @@ def canon(v):
 # ------------------------------------------------------------------ state
 
 class State:
-    __slots__ = ("mem", "assume", "order", "trace", "visits", "inloop")
+    __slots__ = ("mem", "assume", "order", "trace", "visits", "inloop", "unroll")
 
     def __init__(self):
         self.mem = {}
@@ -192,6 +192,7 @@ class State:
         self.trace = ()
         self.visits = {}
         self.inloop = ()
+        self.unroll = {}
 
     def fork(self):
         s = State()
@@ -201,6 +202,7 @@ class State:
         s.trace = self.trace
         s.visits = dict(self.visits)
         s.inloop = self.inloop
+        s.unroll = dict(self.unroll)
         return s
 
     def learn(self, atom, val):
@@ -629,15 +631,27 @@ class Sem:
         while True:
             key = (fr.fid, bb)
             c = st.visits.get(key, 0)
-            if c >= 1:
+            if c >= 1 and c <= st.unroll.get(key, 0):
+                # a loop driven by an iterator over a literal list: run it trip by trip (every trip consumes an element)
+                st.visits[key] = c + 1
+                for i_ in b.loop_blocks(bb):
+                    if i_ != bb:
+                        st.visits.pop((fr.fid, i_), None)
+            elif c >= 1:
                 if bb in heads:
                     # back edge: one trip round the loop from an arbitrary (havocked) loop state
                     yield (st, "loopback", mk("loopstate", bb, tuple((l, self.resolve(self.cell(st, (fr.fid, l)), st)) for l in heads[bb])), (b.path, bb))
                 else:
                     yield (st, "loop", None, (b.path, bb))
                 return
-            st.visits[key] = c + 1
-            if bb in heads:
+            if c == 0:
+                st.visits[key] = 1
+            if bb in heads and c == 0:
+                lists = [self.resolve(st.mem[(fr.fid, l)], st) for l in heads[bb] if (fr.fid, l) in st.mem]
+                lists = [v for v in lists if isinstance(v, tuple) and v and v[0] == "iterlist"]
+                if lists:
+                    st.unroll[key] = max(len(v[1]) for v in lists) + 1
+            if bb in heads and c == 0 and key not in st.unroll:
                 init = tuple((l, self.resolve(st.mem[(fr.fid, l)], st)) for l in heads[bb] if (fr.fid, l) in st.mem)
                 st.trace = st.trace + ((mk("loopinit", fr.depth, bb, init), len(st.order), (b.path, bb)),)
                 for l in heads[bb]:
@@ -673,7 +687,10 @@ class Sem:
                     if (a[2] == pol) != want:
                         yield (st, "panic", None, (b.path, bb))
                         return
-                elif a[0] != "ovf":
+                elif a[0] == "ovf":
+                    if a[1].startswith("Sub"):
+                        st.trace = st.trace + ((mk("assert", "overflow_Sub", a, want == pol), len(st.order), (b.path, bb)),)
+                else:
                     have = st.assume.get(a)
                     if have is None:
                         # the check is assumed to pass (panic freedom is C04.panic's subject); recorded as an event, not as a decision
@@ -1115,6 +1132,13 @@ class Sem:
                 return [(st, mk("iterlist", tuple(a[1])))]
             if a[0] == "iterlist":
                 return [(st, a)]
+        if nm == "next" and "Iterator" in p and len(A) == 1 and A[0][0] == "ptr":
+            cur = self.resolve(self.read_at(st, A[0][1], A[0][2]), st)
+            if isinstance(cur, tuple) and cur and cur[0] == "iterlist":
+                if not cur[1]:
+                    return [(st, NONE)]
+                st.mem[A[0][1]] = self.update(self.cell(st, A[0][1]), list(A[0][2]), mk("iterlist", tuple(cur[1][1:])), st)
+                return [(st, some(cur[1][0]))]
         if nm in ("flatten", "fold", "map", "any", "all", "copied", "cloned", "rev", "for_each") and "Iterator" in p and A:
             it = self.val(A[0], st)
             if it[0] == "iterlist":
